@@ -48,7 +48,8 @@ MANIFEST = dict(
          "read again in several orders - effective sample size first, dictionary twice, weights/ESS/weights - must still be the "
          "recomputed value). The evidence state of the importance sampler is ALSO regenerated from the source on every run "
          "(pylogvec2lean: _INSIntegralState.update_evidence / logZ / log_posterior_weights and log_evidence_from_ins_samples -> "
-         "Gen/InsState.lean) and proved equal to the model's insWeights / insZ / insPostW (ins_*_source_eq_model).",
+         "Gen/InsState.lean; also compute_evidence_ratio and compute_uncertainty with sqrt/abs uninterpreted) and proved equal to the "
+         "model's insWeights / insZ / insPostW / insRatio / insVar (ins_*_source_eq_model).",
     note="Resuming is the identity on the modelled state only for checkpoints written at iteration boundaries (periodic / final); "
          "checkpoints written inside consume_sample (signal window F4, checkpoint_on_training F25) are outside the theorems. "
          "'stored logL/logP equal the model evaluated at the sample' is a statement about user code; proved is only "
@@ -120,6 +121,11 @@ def gen_ins_state(ctx):
                   self_attrs={"log_evidence_live_points": ("(log_evidence_live_points u_weights_lp)", V.LOG),
                               "log_evidence_nested_samples": ("(log_evidence_nested_samples u_weights_ns)", V.LOG),
                               "logZ": ("(logZ u_logZ u_n)", V.LOG)}),
+        # the uncertainty (behind log_evidence_error and the Z_err / fractional_error criteria); sqrt and |.| stay uninterpreted
+        V.VecSpec(source="nessai/evidence.py", cls="_INSIntegralState", func="compute_uncertainty", name="compute_uncertainty",
+                  params=[("log_evidence", "log_evidence", V.BOOL)], result="K", lsum="sumL",
+                  extra_binders="(sqrtOf absOf : K → K) (u_logZ : K)", real_fns={"np.sqrt": "sqrtOf", "np.abs": "absOf"},
+                  self_attrs={"_weights": ("u_weights", V.VLOG), "_n": ("u_n", V.NAT), "logZ": ("(logZ u_logZ u_n)", V.LOG)}),
     ]
     parts, infos = [], {}
     try:
